@@ -20,10 +20,18 @@ ValOf(kind, name) ==
     [] kind = "constarr" -> AvExpr(ArrLit(<<Lit(S(<<97>>)), Lit(Num(2))>>))
     [] kind = "constobj" -> AvExpr(ObjLit(<< <<"a", Lit(Bool(TRUE))>> >>))
     [] kind = "dynobj"   -> AvExpr(ObjLit(<< <<"a", Ident("dz", FALSE, Bool(TRUE))>> >>))
+    \* constant-ness analysis of composite literals: computed keys, nesting
+    [] kind = "ckdynkey" -> AvExpr(ObjLitC(<< <<Ident("kd", FALSE, StrS(<<97>>, "a")), "a", Lit(Bool(TRUE))>> >>))      \* { [kd]: true }
+    [] kind = "cklitkey" -> AvExpr(ObjLitC(<< <<Lit(StrS(<<97>>, "a")), "a", Ident("dz", FALSE, Bool(TRUE))>> >>))      \* { ["a"]: dz }
+    [] kind = "ckconst"  -> AvExpr(ObjLitC(<< <<Lit(StrS(<<97>>, "a")), "a", Lit(Bool(TRUE))>> >>))                       \* { ["a"]: true }
+    [] kind = "arrdyn"   -> AvExpr(ArrLit(<<Lit(S(<<97>>)), Ident("dz", FALSE, Bool(TRUE))>>))                            \* ["a", dz]
+    [] kind = "nestdyn"  -> AvExpr(ObjLit(<< <<"a", ArrLit(<<ObjLit(<< <<"b", Ident("dz", FALSE, Bool(TRUE))>> >>)>>)>> >>))   \* { a: [{ b: dz }] }
     [] kind = "dyn"      -> AvExpr(Ident("d_" \o name, FALSE, IF name \in {"onClick", "onFoo"} THEN Fn("hd") ELSE S(<<100>>)))
     [] kind = "call"     -> AvExpr(Call("c_" \o name, IF name \in {"onClick", "onFoo"} THEN Fn("hc") ELSE S(<<101>>)))
 
+ExtraKinds == {"ckdynkey", "cklitkey", "ckconst", "arrdyn", "nestdyn"}
 NamedAtoms == {Plain(n, ValOf(k, n)) : n \in Names, k \in ValueKinds}
+              \cup {Plain(n, ValOf(k, n)) : n \in {"foo", "style", "class"}, k \in ExtraKinds}
               \cup {NsAttr("xlink", "href", ValOf(k, "href")) : k \in {"str", "dyn"}}
               \cup {NsAttr("onUpdate", "modelValue", ValOf(k, "onClick")) : k \in {"dyn"}}
 Specials == {Spread(Ident("sp1", FALSE, Obj(<< <<"id", Num(1)>> >>))),
@@ -59,8 +67,9 @@ Trees(d) ==
                                               cs \in SeqsFromTo(Trees(d - 1), 1, 2)}
 (* deep nesting: chains of single-child elements / components / fragments down to a leaf *)
 RECURSIVE Chains(_)
-Chains(d) == IF d = 0 THEN Leafs
-             ELSE Leafs \cup {ChElem(Elem(t, <<>>, <<c>>)) : t \in {TagComp("A" \o ToString(d), FALSE, Undef), TagHtml("div"), TagFrag}, c \in Chains(d - 1)}
+LeafsP == Leafs \cup {ChExpr(Wrap("paren", Ident("bi", TRUE, PVNode("pvb"))))}      \* `{(bi)}` is the identifier child bi
+Chains(d) == IF d = 0 THEN LeafsP
+             ELSE LeafsP \cup {ChElem(Elem(t, <<>>, <<c>>)) : t \in {TagComp("A" \o ToString(d), FALSE, Undef), TagHtml("div"), TagFrag}, c \in Chains(d - 1)}
 TreeCases == {[kind |-> "tree", elem |-> Elem(TagComp("Root", FALSE, Undef), <<>>, cs), opts |-> Opt(FALSE, opt)] :
                 cs \in SeqsFromTo(Trees(TreeDepth), 1, 2) \cup {<<c>> : c \in Chains(4)}, opt \in BOOLEAN}
 =============================================================================
